@@ -274,6 +274,39 @@ def check(ctx):
     ctx.ob("R10-b", f, "release beyond max_value is rejected", ok,
            detail="" if ok else "no ValueError raised under `_max_value is not None and _value == _max_value`", by=("max_value guard",))
     # the guard comes before any state change: no wake/inc on the raising path is covered by at_exit above
+    # ... and *every* way of handing the permit back (waking a waiter as well as incrementing) is behind it: with max_value == 0 the value
+    # equals max_value while tasks wait, and waking one of them creates a permit that must not exist
+    under_max = [["self._max_value is None"], ["not self._value == self._max_value"], ["not self._max_value == self._value"],
+                 ["self._value < self._max_value"], ["self._max_value > self._value"]]
+    for pat_, what_ in (("self._value += 1", "increment"), ("$F.set_result($*A)", "wake-up of a waiter")):
+        for st, env in ctx.sites(f, pat_):
+            ctx.require_at("R10-b", f, st, under_max, instance=f"a permit is given back ({what_}) only below max_value", what=what_)
+    # a queued waiter leaves the queue un-woken only if its wait was cancelled
+    dq_ = ctx.sites(f, "$F = self._waiters.popleft()")
+    futs_ = {u(e["F"]) for _, e in dq_}
+    if len(futs_) == 1:
+        fut1 = next(iter(futs_))
+        dead = (F(f"{fut1}.cancelled()")[0], True)
+
+        def step_d(st, e, c):
+            if c.is_exc:
+                # (an EAFP take that raised dequeued nothing; what was dequeued before is judged by what is known at this point)
+                return False if e == "deq" and st and dead in c.facts_before else st
+            if e == "deq":
+                if st and dead not in c.facts_before:
+                    return Bad("a dequeued waiter is discarded (not woken) although its wait was not cancelled")
+                return True
+            if e == "wake":
+                return False
+            return st
+
+        def exit_d(kind, st, facts):
+            if st and dead not in facts:
+                return "release() ends having dequeued a waiter it neither woke nor found cancelled"
+            return None
+
+        ctx.paths("R10-b", f, [("deq", f"{fut1} = self._waiters.popleft()"), ("wake", f"{fut1}.set_result($*A)")], step_d, False, exit_d,
+                  instance="only a waiter whose wait was cancelled is dropped from the queue")
 
     # ---- R10-d semaphore waiters
     acq = S["acquire"]
@@ -312,3 +345,43 @@ def check(ctx):
     from .walkers import check_cic, check_walker
     check_cic(ctx, "R10-i")
     check_walker(ctx, "R10-i", ctx.fn("AsyncIOBackend.checkpoint_if_cancelled", A))
+
+    # ---- R10-j the counter starts non-negative and not above max_value (what assumption A7 and the `_value == 0` / `_value > 0` guards
+    # rest on): the shared constructor rejects everything else on every path, and both concrete classes go through it with their own arguments
+    from .common import SYNC as _SYNC
+    binit = ctx.fn("Semaphore.__init__", _SYNC)
+    a_ = binit.node.args
+    pn = [x.arg for x in a_.posonlyargs + a_.args + a_.kwonlyargs]
+    iv = pn[1] if len(pn) > 1 else "initial_value"
+    mv = "max_value"
+    ok_int, ok_neg = F(f"isinstance({iv}, int)"), (F(f"{iv} < 0")[0], False)
+
+    def exit_v(kind, st, facts):
+        if kind != "return":
+            return None
+        if ok_int not in facts:
+            return f"the constructor accepts an `{iv}` that is not an integer"
+        if ok_neg not in facts:
+            return f"the constructor accepts a negative `{iv}` on this path: acquire_nowait() (guarded by `_value == 0`) then grants permits that do not exist"
+        if F(f"{mv} is None") not in facts and ((F(f"{mv} < {iv}")[0], False) not in facts or F(f"isinstance({mv}, int)") not in facts):
+            return f"the constructor accepts a `{mv}` below `{iv}` (or not an integer) on this path"
+        return None
+
+    ctx.paths("R10-j", binit, [], lambda st, e, c: st, 0, exit_v, instance="Semaphore(initial_value, max_value) validation is total")
+    for q_, m_ in (("Semaphore.__init__", A), ("SemaphoreAdapter.__init__", _SYNC)):
+        f_ = ctx.fn(q_, m_)
+        p_ = [x.arg for x in f_.node.args.posonlyargs + f_.node.args.args][1:2]
+        p_ = p_[0] if p_ else "initial_value"
+
+        def is_super_init(frag, node, p_=p_):
+            for c_ in (ast.walk(frag) if frag is not None else ()):
+                if (isinstance(c_, ast.Call) and norm(c_.func) == "super().__init__" and [norm(x) for x in c_.args] == [p_]
+                        and any(k.arg == "max_value" and norm(k.value) == "max_value" for k in c_.keywords)):
+                    return True
+            return False
+
+        dominates_all_exits(ctx, "R10-j", f_, is_super_init, f"{q_} validates its arguments through the shared constructor")
+    sinit = ctx.fn("Semaphore.__init__", A)
+    p_ = [x.arg for x in sinit.node.args.args][1]
+    for pat_ in (f"self._value = {p_}", "self._max_value = max_value"):
+        dominates_all_exits(ctx, "R10-j", sinit, pat_, f"the backend semaphore starts from the validated arguments (`{pat_}`)")
